@@ -99,6 +99,10 @@ NC_PLAIN = {"encoder_config": {"hidden_size": [8], "layer_norm": False, "activat
             "head_config": {"hidden_size": [4], "layer_norm": False, "activation": "ReLU"}}
 NC_PARTIAL = {"encoder_config": {"hidden_size": [8]}}          # what a user typically passes
 TOL = 1e-4
+# IPPO.assemble_shared_inputs regroups every experience dict in that dict's own insertion order, so the eight dicts of
+# one rollout must list the agents in one common order (the training loop builds all of them from agent.agent_ids).
+# Differently ordered dicts are outside that contract; switch on once fixes/C17-ippo-assemble-by-agent-ids.patch is in.
+INDEPENDENT_DICT_ORDERS = False
 
 
 def tag(t, a, e, ts=64):
@@ -305,6 +309,8 @@ class C17(vlib.Driver):
             if rng.random() < 0.5:
                 rng.shuffle(c["dict_order"])
             c["ts"] = 128 if max(nA) > 8 else 64
+            if INDEPENDENT_DICT_ORDERS and rng.random() < 0.3:
+                c["dict_orders"] = [rng.sample(c["ids"], len(c["ids"])) for _ in range(8)]
         return c
 
     def generate(self, tier, rng):
@@ -438,6 +444,8 @@ class C17(vlib.Driver):
             gi, a = gm[aid]
             for d, x in zip(out, per_agent(a, data[gi])):
                 d[aid] = x
+        if case.get("dict_orders"):                     # a different insertion order for each of the eight dicts
+            out = [{k: d[k] for k in order} for d, order in zip(out, case["dict_orders"])]
         return tuple(out)
 
     def learn_capture(self, case, data):
